@@ -304,9 +304,35 @@ func (e *Exec) leRead(st *State, s *Term, n int) *Term {
 	arr := c.Select(e.heapGet(st, mn, ms), e.tm.SliceBase(s))
 	off := e.tm.SliceOff(s)
 	var sum *Term = c.Int(0)
+	var whole *Term // the value v whose little-endian bytes these are, when they were written by PutUint*/AppendUint*
+	same := true
 	for i := 0; i < n; i++ {
 		b := e.typed(c.Select(arr, c.Add(off, c.Int(int64(i)))), types.Typ[types.Byte])
 		sum = c.Add(sum, c.Mul(b, c.BigInt(pow2(uint(8*i)))))
+		// b == (v div 256^i) mod 256 ?
+		sb := strip(b)
+		var v *Term
+		if sb.kind == kApp && sb.op == "mod" && len(sb.args) == 2 {
+			if m, ok := litInt(sb.args[1]); ok && m.IsInt64() && m.Int64() == 256 {
+				d := strip(sb.args[0])
+				if i == 0 {
+					v = sb.args[0]
+				} else if d.kind == kApp && d.op == "div" && len(d.args) == 2 {
+					if q, ok := litInt(d.args[1]); ok && q.Cmp(pow2(uint(8*i))) == 0 {
+						v = d.args[0]
+					}
+				}
+			}
+		}
+		if v == nil || (whole != nil && v != whole) {
+			same = false
+		} else {
+			whole = v
+		}
+	}
+	if same && whole != nil {
+		// reading back exactly the bytes one Put wrote: the value itself (modulo the width read)
+		return c.Mod(whole, c.BigInt(pow2(uint(8*n))))
 	}
 	return sum
 }
